@@ -4,7 +4,7 @@
         -> <id> <canonical tree>   tokens: (name @attr=hex ... children ) | t=hex | c=hex | p=target,hex ; or ILL-NESTED
    <id> vs <g>* ; <tree>   g = G,<n>,<b> (top-level variables, lowest precedence first)
         tree tokens: (T,<e> p,<n>,<b>* ... ) | (B,<e> ... ) | (I w,<n>,<b>* ... ) | V,<n>,<b> | U,<n>
-        -> <id> <ok_root true> <obs>*     obs = <n>=<b> | <n>=-     ; or <id> <ok> EXC *)
+        -> <id> <ok_root (not reset_variant)> <obs>*     obs = <n>=<b> | <n>=-     ; or <id> <ok> EXC *)
 let bytes_of_hex (h : string) : n list =
   let l = ref [] in
   let i = ref (String.length h - 2) in
@@ -80,7 +80,8 @@ let vs_handle (toks : string list) : string =
   | [] -> "EMPTY"
   | t :: r ->
       let (root, _) = parse_one t r in
-      let ok = if ok_root true root then "1" else "0" in
+      (* the guard of the theorem that applies to the variant the source has *)
+      let ok = if ok_root (not reset_variant) root then "1" else "0" in
       match impl_run reset_variant globals root with
       | None -> ok ^ " EXC"
       | Some obs ->
